@@ -950,11 +950,263 @@ def transform_seqkw(sf):
         do_resolve_sequence_association(r)
 
 
+
+# ---- duplicate arguments with keyword actuals (remove_duplicate_args_call: kwarguments filters)
+
+K_DD_KWADJ = 'dedup-nonadjacent-duplicate-keywords'     # KnownDedupKwAdj
+
+DEDUPKW_FORMS = {
+    # name: (actual list of the call in `kernel`, value of kernel's own variable ke: 'n' | 'm' | 'm1')
+    'poskw': ('n, m, a, ks=i, kx=j, ke=m', 'm1'),          # the same actual once positionally, once by keyword
+    'poskw2': ('n, m, a, ks=i, kx=n, ke=m', 'm1'),         # two such pairs
+    'kwadj': ('n, m, a, ks=i, kx=i, ke=m', 'm1'),          # adjacent duplicate keywords + positional/keyword pair
+    'kwnonadj': ('n, m, a, ks=i, kx=j, ke=i', 'm1'),       # duplicate keywords that are not adjacent
+    'kwfirst': ('n, m, a, ke=m, ks=i, kx=j', 'm1'),        # duplicating keyword first
+    'kwkw': ('n, m, a, ks=i, kx=j, ke=j', 'm1'),           # adjacent duplicate keywords only
+    'posdup': ('n, m, a, i, kx=j, ke=i', 'm1'),            # positional actual repeated by a later keyword
+    'name': ('ke, m, a, ks=i, kx=j, ke=m', 'n'),           # a keyword NAMED like a positional actual variable (and duplicating another)
+    'name2': ('n, ke, a, ks=i, kx=j, ke=j', 'm'),          # … the keyword itself duplicates another keyword
+    'name3': ('ke, m, a, ks=i, kx=j, ke=ke', 'n'),         # keyword named like its own value, which is also passed positionally
+    'nodup': ('n, m, a, ks=i, kx=j, ke=ke', 'm1'),         # keywords, nothing duplicated
+    'lit': ('n, m, a, ks=1, kx=1, ke=m', 'm1'),            # literal duplicates among keywords
+}
+
+
+def render_dedupkw(spec):
+    form, n, m = spec_get(spec, 'form'), spec_get(spec, 'n'), spec_get(spec, 'm')
+    twice = spec_get(spec, 'twice', 0)
+    actuals, kev = DEDUPKW_FORMS[form]
+    ke = {'n': n, 'm': m, 'm1': m - 1}[kev]
+    call = f'call sub1({actuals})'
+    mod = f"""module cmod
+  implicit none
+contains
+  subroutine kernel(n, m, a, i, j, ke)
+    integer, intent(in) :: n, m, i, j, ke
+    integer, intent(inout) :: a(n, m)
+    {call}
+{('    ' + call) if twice else ''}
+  end subroutine kernel
+  subroutine sub1(nlon, nlev, field, ks, kx, ke)
+    integer, intent(in) :: nlon, nlev, ks, kx, ke
+    integer, intent(inout) :: field(nlon, nlev)
+    integer :: jk
+    do jk = ks, ke
+      field(kx, jk) = field(kx, jk) + nlon + 10 * nlev + 100 * kx
+    end do
+  end subroutine sub1
+end module cmod
+"""
+    drv = f"""program cmain
+  use cmod
+  implicit none
+  integer :: a({n}, {m}), k
+  a = reshape([(k, k = 1, {n * m})], shape(a))
+  call kernel({n}, {m}, a, 1, 2, {ke})
+  print *, a
+end program cmain
+"""
+    return mod, drv
+
+
+def _kw_values(form):
+    out = []
+    for part in DEDUPKW_FORMS[form][0].split(','):
+        if '=' in part:
+            out.append(part.split('=')[1].strip())
+    return out
+
+
+def known_dedup_kwadj(vals):
+    """Lean: KnownDedupKwAdj — two equal keyword values with a different value between them (itertools.groupby only merges
+    adjacent duplicates)"""
+    for p in range(len(vals)):
+        for q in range(p + 2, len(vals)):
+            if vals[p] == vals[q] and any(v != vals[p] for v in vals[p + 1:q]):
+                return True
+    return False
+
+
+def classes_dedupkw(spec):
+    return [K_DD_KWADJ] if known_dedup_kwadj(_kw_values(spec_get(spec, 'form'))) else []
+
+
+def binding_problems(routine):
+    """every call of `routine` to a known callee binds its actuals 1:1 to the callee's dummies (count, keyword names)"""
+    from loki import FindNodes, CallStatement, fgen
+    probs = []
+    for call in FindNodes(CallStatement).visit(routine.body):
+        callee = call.routine
+        if not callee or not hasattr(callee, 'argnames'):
+            continue
+        dummies = [str(a).lower() for a in callee.argnames]
+        kws = [str(k).lower() for k, _ in call.kwarguments]
+        for k in kws:
+            if k not in dummies:
+                probs.append(f'`{fgen(call)}`: keyword {k} is not a dummy of {callee.name}({", ".join(dummies)})')
+        bound = dummies[:len(call.arguments)] + kws
+        for d in dummies:
+            if bound.count(d) != 1:
+                probs.append(f'`{fgen(call)}`: dummy {d} of {callee.name}({", ".join(dummies)}) is bound {bound.count(d)} times')
+        if len(call.arguments) + len(kws) != len(dummies):
+            probs.append(f'`{fgen(call)}`: {len(call.arguments) + len(kws)} actuals for {len(dummies)} dummies')
+    return probs
+
+
+def transform_dedupkw(sf, spec):
+    from loki.transformations.routine_signatures import remove_duplicate_args_from_calls
+    mod = sf['cmod']
+    rs = list(mod.subroutines)
+    for r in rs:
+        r.enrich(rs)
+    remove_duplicate_args_from_calls(mod['kernel'])
+    probs = binding_problems(mod['kernel'])
+    return ('caller and callee no longer fit: ' + probs[0]) if probs else None
+
+
+# ---- derived-type expansion through arrays of derived types (partial expansion)
+
+DTARR_STMTS = [
+    't%mids({a})%arr2({b})%v(3) = t%mids({b})%arr2({a})%v(1) + t%one%in%shift + t%one%arr2({b})%scale',
+    't%mids({b})%in%shift = t%mids({b})%shift + t%scale',
+    't%mids({a})%in%v({b}) = t%mids({a})%in%v({b}) + t%mids({a})%arr2({b})%shift',
+    't%one%arr2({a})%v(2) = t%one%arr2({a})%v(2) + t%one%in%v(1) + t%one%scale',
+    't%mids({a})%arr2({b})%scale = t%mids({a})%scale - t%mids({a})%in%scale',
+]
+
+
+def render_dtarr(spec):
+    a, b, pat, n = spec_get(spec, 'a'), spec_get(spec, 'b'), spec_get(spec, 'pat'), spec_get(spec, 'n')
+    stmts = [st.format(a=a, b=b) for k, st in enumerate(DTARR_STMTS) if pat >> k & 1]
+    body = '\n'.join('    ' + st for st in stmts)
+    mod = f"""module cmod
+  implicit none
+  type inner_t
+    integer :: scale
+    integer :: shift
+    integer :: v(3)
+  end type inner_t
+  type mid_t
+    integer :: scale
+    integer :: shift
+    type(inner_t) :: in
+    type(inner_t) :: arr2(2)
+  end type mid_t
+  type outer_t
+    integer :: scale
+    type(mid_t) :: mids(2)
+    type(mid_t) :: one
+    integer, allocatable :: acc(:)
+  end type outer_t
+contains
+  subroutine kernel(n, o, res)
+    integer, intent(in) :: n
+    type(outer_t), intent(inout) :: o
+    integer, intent(out) :: res
+    call sub1(n, o, res)
+  end subroutine kernel
+  subroutine sub1(n, t, r)
+    integer, intent(in) :: n
+    type(outer_t), intent(inout) :: t
+    integer, intent(out) :: r
+    integer :: i
+    do i = 1, n
+      t%acc(i) = t%acc(i) * t%mids({b})%in%scale + t%mids({a})%scale
+    end do
+{body}
+    r = t%mids({a})%in%scale + 2 * t%mids({b})%arr2({a})%v(3) + 3 * t%mids({b})%in%shift
+  end subroutine sub1
+end module cmod
+"""
+    drv = f"""program cmain
+  use cmod
+  implicit none
+  type(outer_t) :: o
+  integer :: res, i, j, c
+  c = 1
+  allocate(o%acc({n}))
+  do i = 1, {n}
+    o%acc(i) = i + 1
+  end do
+  o%scale = 3
+  call fill(o%one, c)
+  do i = 1, 2
+    call fill(o%mids(i), c)
+  end do
+  call kernel({n}, o, res)
+  print *, res, o%scale, o%acc
+  call show(o%one)
+  do i = 1, 2
+    call show(o%mids(i))
+  end do
+contains
+  subroutine filli(x, c)
+    type(inner_t), intent(inout) :: x
+    integer, intent(inout) :: c
+    x%scale = c; x%shift = c + 1; x%v = [c + 2, c + 3, c + 4]; c = c + 5
+  end subroutine filli
+  subroutine fill(x, c)
+    type(mid_t), intent(inout) :: x
+    integer, intent(inout) :: c
+    x%scale = c; x%shift = c + 1; c = c + 2
+    call filli(x%in, c); call filli(x%arr2(1), c); call filli(x%arr2(2), c)
+  end subroutine fill
+  subroutine show(x)
+    type(mid_t), intent(in) :: x
+    print *, x%scale, x%shift, x%in%scale, x%in%shift, x%in%v, x%arr2(1)%scale, x%arr2(1)%shift, x%arr2(1)%v, &
+      & x%arr2(2)%scale, x%arr2(2)%shift, x%arr2(2)%v
+  end subroutine show
+end program cmain
+"""
+    return mod, drv
+
+
+def transform_dtarr(sf, spec):
+    """expansion as for `dtype`; structural check: with every expanded dummy name mapped back to its member path the body of
+    the callee is the original body (every reference denotes the same storage path)"""
+    import re
+    from loki import fgen
+    from loki.tools import CaseInsensitiveDict
+    from loki.transformations.transform_derived_types import DerivedTypeArgumentsTransformation
+    mod = sf['cmod']
+    rs = list(mod.subroutines)
+    for r in rs:
+        r.enrich(rs)
+    before = fgen(mod['sub1'].body).lower().replace(' ', '')
+    T = DerivedTypeArgumentsTransformation(all_derived_types=bool(spec_get(spec, 'alld', 0)))
+    data = CaseInsensitiveDict()
+    data['sub1'] = T.expand_derived_args_kernel(mod['sub1'])
+    T.expand_derived_args_caller(mod['kernel'], data)
+    after = fgen(mod['sub1'].body).lower().replace(' ', '')
+    members = sorted({str(v).lower() for vs in data['sub1']['expansion_map'].values() for v in vs}, key=len, reverse=True)
+    for mname in members:
+        after = re.sub(r'(?<![a-z0-9_%])' + re.escape(mname.replace('%', '_')) + r'(?![a-z0-9_])', mname, after)
+    if after != before:
+        la, lb = after.split('\n'), before.split('\n')
+        for x, y in zip(la, lb):
+            if x != y:
+                return f'expanded kernel statement denotes other storage: `{x}` (members mapped back) vs original `{y}`'
+        return 'expanded kernel body differs from the original body'
+    return None
+
+
 SRC_KINDS = {
+    'dedupkw': (render_dedupkw, classes_dedupkw, transform_dedupkw),
+    'dtarr': (render_dtarr, lambda spec: [], transform_dtarr),
     'shape': (render_shape, classes_shape, lambda sf, spec: transform_shape(sf)),
     'dtype': (render_dtype, classes_dtype, transform_dtype),
     'tbound': (render_tbound, classes_tbound, lambda sf, spec: transform_tbound(sf)),
     'seqkw': (render_seqkw, classes_seqkw, lambda sf, spec: transform_seqkw(sf)),
+}
+
+
+SRC_KEYS = {
+    'shape': ('capture', 'k', 'lb1', 'lb2', 'm', 'n', 'nest', 'pass', 'rank'),
+    'dtype': ('alld', 'clash', 'lbq', 'lbv', 'n', 'nested', 's'),
+    'tbound': ('bind', 'kk'),
+    'seqkw': ('cnt', 'i', 'kw'),
+    'dedupkw': ('form', 'm', 'n', 'twice'),
+    'dtarr': ('a', 'alld', 'b', 'n', 'pat'),
 }
 
 
@@ -986,24 +1238,25 @@ def gf_run(text, timeout=600):
 
 
 def real_src(kind, spec):
-    """(module text, driver text, transformed module text printed by Loki's fgen)"""
+    """(module text, driver text, transformed module text printed by Loki's fgen, structural problem found by the kind's own
+    check or None)"""
     from loki import Sourcefile, fgen
     from loki.frontend import FP
     render, _, transform = SRC_KINDS[kind]
     mod, drv = render(spec)
     sf = Sourcefile.from_source(mod, frontend=FP)
     try:
-        transform(sf, spec)
+        problem = transform(sf, spec)
         text = fgen(sf.ir)
     except Exception as e:
         raise TransformError(f'{type(e).__name__}: {str(e)[:160]}') from e
-    return mod, drv, text
+    return mod, drv, text, problem
 
 
 K_DD_LEFT = 'dedup-removed-name-left-behind'      # KnownDedupLeft (replaces the narrower declaration-only class)
 K_DD_MULTI = 'dedup-second-caller-misaligned'     # KnownDedupMulti
 K_DD_SHAPE = 'dedup-differing-dummy-declarations' # KnownDedupShape
-ALL_CLASSES = [K_SEQ_RANK, K_SEQ_SHORT, K_SEQ_KW, K_DD_MULTI, K_DD_LEFT, K_DD_INTENT, K_DD_SHAPE, K_SH_LB, K_SH_CAP, K_DT_LB, K_DT_CLASH,
+ALL_CLASSES = [K_SEQ_RANK, K_SEQ_SHORT, K_SEQ_KW, K_DD_MULTI, K_DD_LEFT, K_DD_INTENT, K_DD_SHAPE, K_DD_KWADJ, K_SH_LB, K_SH_CAP, K_DT_LB, K_DT_CLASH,
                K_TB_PASS, K_TB_NOPASS]
 
 
@@ -1074,8 +1327,27 @@ def add_second_caller(rng, prog):
 GEN_CFG = dict(max_stmts=10, max_depth=2, n_callees=(0, 2), n_arrays=(1, 3), weights=dict(call=14))
 
 
+def class_listed(cls):
+    """inputs of a newly characterised class are generated only once the class is listed (keeps the clean tree at exit 0)"""
+    import json
+    from pathlib import Path
+    from ..core import VERIF
+    f = Path(os.environ.get('VERIF_KNOWN', str(VERIF / 'known_findings.json')))
+    try:
+        return any(k.get('property') == 'C34' and k.get('class') == cls for k in json.loads(f.read_text())['findings'])
+    except Exception:
+        return False
+
+
 def gen_src(rng):
-    kind = rng.choice(['shape', 'shape', 'dtype', 'dtype', 'tbound', 'seqkw'])
+    kind = rng.choice(['shape', 'shape', 'dtype', 'dtype', 'tbound', 'seqkw', 'dedupkw', 'dedupkw', 'dtarr', 'dtarr'])
+    if kind == 'dedupkw':
+        n = rng.randint(3, 4)
+        forms = [f for f in sorted(DEDUPKW_FORMS) if class_listed(K_DD_KWADJ) or not known_dedup_kwadj(_kw_values(f))]
+        return kind, mk_spec(form=rng.choice(forms), n=n, m=rng.randint(3, 5), twice=int(rng.random() < 0.25))
+    if kind == 'dtarr':
+        return kind, mk_spec(a=rng.randint(1, 2), b=rng.randint(1, 2), pat=rng.randint(0, 2 ** len(DTARR_STMTS) - 1),
+                             n=rng.randint(1, 3), alld=int(rng.random() < 0.5))
     if kind == 'shape':
         spec = mk_spec(rank=rng.choice((1, 2)), lb1=rng.choice((1, 1, 1, 0, -1)), lb2=rng.choice((1, 1, 1, 0)),
                        capture=int(rng.random() < 0.2), **{'pass': rng.choice(('whole', 'whole', 'col'))},
@@ -1098,12 +1370,12 @@ _POOL = []
 def _prepare_src(kind, spec, pool):
     """Loki part in the calling thread (the frontend is not thread safe), the two gfortran runs on the pool when given"""
     try:
-        mod, drv, text = real_src(kind, spec)
+        mod, drv, text, problem = real_src(kind, spec)
     except TransformError as e:
         return ('exc', str(e))
     if pool is None:
-        return ('ok', gf_run(mod + drv), gf_run(text + '\n' + drv))
-    return ('ok', pool.submit(gf_run, mod + drv), pool.submit(gf_run, text + '\n' + drv))
+        return ('ok', gf_run(mod + drv), gf_run(text + '\n' + drv), problem)
+    return ('ok', pool.submit(gf_run, mod + drv), pool.submit(gf_run, text + '\n' + drv), problem)
 
 
 def prefetch_src(prop, reqs):
@@ -1168,7 +1440,8 @@ class C34(Prop):
                   'dedup_sound_partial (expression level: every completely renamed expression evaluates in the merged callee state '
                   'like the original in the original state) + dedup_entry_merged; the lifting to statement execution and copy-out is '
                   'not proved (oracle). expand_consistent: abstract record flattening (zip of expansions = expansion of zips). '
-                  'Explicit shapes, derived-type expansion, type-bound calls, keyword calls: oracle only (gfortran).')
+                  'Explicit shapes, derived-type expansion (incl. partial expansion behind arrays of derived types), type-bound calls, keyword '
+                  'calls, duplicate removal with keyword actuals: oracle only (structural checks on the Loki objects + gfortran).')
     level_note = ('FIR call semantics (Sem.lean) = copy-in/copy-out in dummy order; the meaning of a section actual is defined in '
                   'LokiModel/C34/Seq.lean (elements in array element order, copy through them) and mirrored by SecInterp in the '
                   'harness. The hypothesis `hfit` of the sequence-association theorems (the array cell holds its first-dimension '
@@ -1182,7 +1455,10 @@ class C34(Prop):
             'calls, a second calling unit, removed names used in bounds / subscripts / PRINT, kept INTENT(IN) dummy; 2 input sets '
             'each; plus generated Fortran modules (assumed-shape call trees with lower bounds / symbol capture / column sections / '
             'nesting; derived types with static, allocatable and nested members, local-name clashes; type-bound calls with '
-            'pass/nopass; keyword calls) compiled and run by gfortran before and after the real transformation. '
+            'pass/nopass; keyword calls; calls mixing positional and keyword actuals with duplicates of every placement and keywords named like '
+            'actual variables (structural 1:1 binding check + run); member accesses through arrays of derived types followed by two or '
+            'more components with same-named members at several levels (structural same-storage-path check + run)) compiled and run by '
+            'gfortran before and after the real transformation. '
             'non-trivial = the transformation changes the program')
     trusted_base = ['harness/fir.py (printer, exporter from Loki IR, reference interpreter)', 'gfortran 12.2']
     assumptions = ['all calls to one routine duplicate the same arguments (documented restriction of RemoveDuplicateArgs); '
@@ -1302,6 +1578,9 @@ class C34(Prop):
         """results are a deterministic function of (kind, spec); `prefetch_src` may have started the compilations already"""
         if kind not in SRC_KINDS:
             raise ValueError('unknown source kind')
+        missing = [k for k in SRC_KEYS[kind] if spec_get(spec, k) is None]
+        if missing or len(spec) != len(SRC_KEYS[kind]):
+            raise ValueError(f'malformed spec: {missing}')      # strict: the generic shrinker must not drop parameters
         cs = SRC_KINDS[kind][1](spec)
         cls = cs[0] if cs else None
         pre = _SRC_FUT.get(kind + ' ' + dumps(spec))
@@ -1309,6 +1588,8 @@ class C34(Prop):
             pre = _prepare_src(kind, spec, None)
         if pre[0] == 'exc':
             return [Failure(f'{kind}: transformation raised {pre[1]}', cls)]
+        if pre[3]:
+            return [Failure(f'{kind}: {pre[3]}', cls)]
         a, b = pre[1].result() if hasattr(pre[1], 'result') else pre[1], pre[2].result() if hasattr(pre[2], 'result') else pre[2]
         if a[0] == 'timeout' or b[0] == 'timeout':
             return []           # machine too loaded: inconclusive, nothing is claimed for this input
